@@ -3,6 +3,7 @@ package gen
 import (
 	"encoding/json"
 	"fmt"
+	"math/big"
 	"time"
 
 	sdk "github.com/cosmos/cosmos-sdk/types"
@@ -33,6 +34,7 @@ var corpusScenarios = []corpusScenario{
 	{"epoch-and-equal-dates", false, corpusEpochAndEqualDates},
 	{"update-same-order-twice", false, corpusUpdateSameOrderTwice},
 	{"buy-across-markets", false, corpusBuyAcrossMarkets},
+	{"put-beyond-34-digits", false, corpusPutBeyond34Digits},
 }
 
 func init() { QuickCounts["corpus"] = len(corpusScenarios) }
@@ -371,6 +373,49 @@ func corpusBuyAcrossMarkets(c Cfg) *Result {
 	dust3 := sell(2, "0.000002", "uatom", 1)
 	g.Do(a.MsgBuyDirect(buyer, bo(dust3, "0.000001", "uatom", 1, 1), bo(third, "1", "uatom", 2000, 100), bo(victim, "1", "uatom", 1000000, 20000)), noN("three orders, the second and third bid in the first order's denom uatom"))
 	g.Do(a.MsgBuyDirect(buyer, bo(dust3, "0.000001", "uatom", 1, 1), bo(third, "1", "uregen", 2000, 100), bo(victim, "1", "uregen", 1000000, 20000)), noN("three orders, the third bid in the second order's denom"))
+	g.Commit()
+	return g.Finish()
+}
+
+// ---- put-beyond-34-digits (C05) -------------------------------------------------------------------------
+
+func corpusPutBeyond34Digits(c Cfg) *Result {
+	g := NewG(c, chain.Options{GenesisTime: T0})
+	a := g.App
+	g.Begin(g.now.Add(6 * time.Second))
+	cid := g.mkClass(0, []int{0}, "C")
+	pid := g.mkProject(0, cid, "")
+	bA := g.mkBatch(0, pid, date(2015, 1, 1), date(2016, 1, 1), true, nil, "35 significant digits", g.iss(0, big35, ""))
+	bB := g.mkBatch(0, pid, date(2016, 1, 1), date(2017, 1, 1), true, nil, "40 significant digits", g.iss(0, big40, ""))
+	bC := g.mkBatch(0, pid, date(2017, 1, 1), date(2018, 1, 1), true, nil, "35 nines, and 34 nines twice", g.iss(1, nines35, ""), g.iss(0, magnitude, ""), g.iss(2, magnitude, ""))
+	res := g.Do(a.MsgBasketCreate(3, "BIG", "magnitudes", "C", []string{cid}, true, nil, g.basketFee(g.V())), "basket without criteria")
+	bd := respField(res, "basket_denom")
+	g.Commit()
+	no := func(t string) string {
+		return expectNote(false, "C05", "put-minted!=units", t+": amount x 10^6 needs more than 34 significant digits, the tokens cannot be minted exactly")
+	}
+	ok := func(t string) string { return expectNote(true, "C11", "put-rejected-admissible", t) }
+	g.Begin(g.nextTime())
+	g.Do(a.MsgBasketPut(0, bd, chain.BasketCredit(bA, big35)), no("put of the whole 35-digit amount "+big35))
+	g.Do(a.MsgBasketPut(0, bd, chain.BasketCredit(bB, big40)), no("put of the whole 40-digit amount "+big40))
+	g.Do(a.MsgBasketPut(1, bd, chain.BasketCredit(bC, nines35)), no("put of "+nines35))
+	g.Commit()
+	g.Begin(g.nextTime())
+	g.Do(a.MsgBasketPut(0, bd, chain.BasketCredit(bA, big35part)), ok("a 34-digit part of the 35-digit holding"))
+	g.Do(a.MsgBasketPut(0, bd, chain.BasketCredit(bB, big40part)), ok("a 34-digit part of the 40-digit holding"))
+	g.Do(a.MsgBasketPut(0, bd, chain.BasketCredit(bC, magnitude)), ok("9999999999999999999999999999.999999 (34 digits)"))
+	g.Do(a.MsgBasketPut(2, bd, chain.BasketCredit(bC, magnitude)), ok("the same amount again: the basket total now needs more than 34 digits (known finding basket-invariant-34digit)"))
+	g.Commit()
+	g.Begin(g.nextTime())
+	// takes that span the batches: all of the oldest batch plus 10^33 tokens of the next one
+	v := g.V()
+	first := firstBatchTokens(v, v.BasketByDenom[bd])
+	if first != nil {
+		span := new(big.Int).Add(first, new(big.Int).Exp(big.NewInt(10), big.NewInt(33), nil))
+		g.Do(a.MsgBasketTake(0, bd, span.String(), false, "", ""), "take spanning two batches (34-digit token amount)")
+	}
+	g.Do(a.MsgBasketTake(2, bd, "5000000000000000000000000000000000", false, "", ""), "take spanning into the third batch")
+	g.Do(a.MsgBasketTake(0, bd, "1", false, "", ""), "take 1 token")
 	g.Commit()
 	return g.Finish()
 }
